@@ -1231,17 +1231,16 @@ impl<'a> Exec<'a> {
                     continue;
                 }
                 buf[pos] = b;
+                let m = self.arena.mark();
                 let mut s = Session::new();
                 let _ = self.checked(&mut s, &spec, &buf, Place::END, &[], false, Scen::ByteSweep);
+                drop(s);
+                self.arena.release(m);
                 if self.viol.len() > 20 {
                     return;
                 }
             }
             buf[pos] = base[pos];
-            // keep the arena small: each call took regions
-            if pos % 4 == 3 {
-                self.arena.reset();
-            }
         }
         *self.stats.faults_fired.entry("subst_swept").or_insert(0) += base.len() as u64 * 255;
     }
